@@ -168,10 +168,34 @@ func c19LineShape(c *Ctx) {
 	rule := "C19/line-shape"
 	fn := c.Fn("cmd/rdpgw/rdp", "addStructToString")
 	// loop head: block with the rangeindex phi; body start: its true successor
+	// the loop over the fields: the loop head from whose body the kind switch is reached (another loop
+	// may precede it, e.g. one that indexes metadata.Unset)
 	var head *ssa.BasicBlock
+	reachesKind := func(h *ssa.BasicBlock) bool {
+		if len(h.Succs) != 2 {
+			return false
+		}
+		seen := map[*ssa.BasicBlock]bool{h: true}
+		work := []*ssa.BasicBlock{h.Succs[0]}
+		for len(work) > 0 {
+			b := work[len(work)-1]
+			work = work[:len(work)-1]
+			if seen[b] {
+				continue
+			}
+			seen[b] = true
+			for _, in := range b.Instrs {
+				if call, ok := in.(*ssa.Call); ok && calleeName(call) == "(*"+structsPkg+".Field).Kind" {
+					return true
+				}
+			}
+			work = append(work, b.Succs...)
+		}
+		return false
+	}
 	for _, b := range fn.Blocks {
 		if len(b.Instrs) > 0 {
-			if _, ok := b.Instrs[0].(*ssa.Phi); ok && inCycle(b) && head == nil {
+			if _, ok := b.Instrs[0].(*ssa.Phi); ok && inCycle(b) && head == nil && reachesKind(b) {
 				head = b
 			}
 		}
